@@ -1,15 +1,20 @@
 #!/bin/bash
-# usage: tools/seeded_matrix.sh [seed]   -- run every seeded change against the checks named in its meta.json (quick tier,
-# scratch worktree) and print one line per (change, check): caught / MISSED.
+# usage: tools/seeded_matrix.sh [seed] [parallel jobs]   -- run every seeded change against the checks named in its
+# meta.json (quick tier, scratch worktree each) and print one line per (change, check): caught / MISSED.  Entries whose
+# meta says caught_by [] (not judged by design) are listed as such and not run.
 cd "$(dirname "$0")/.."
 export VERIF_SEED="${1:-0}"
-for d in seeded/*/; do
-  name=$(basename "$d")
+jobs="${2:-3}"
+one() {
+  d="$1"; name=$(basename "$d")
   checks=$(python3 -c "import json;print(' '.join(json.load(open('$d/meta.json'))['caught_by']))")
+  if [ -z "$checks" ]; then echo "$name - not-judged-by-design"; return; fi
   out=$(tools/try_patch.sh "$d/patch.diff" $checks 2>&1)
   echo "$out" | grep -E "^\[C[0-9]+ rc=" | while read -r line; do
     c=$(echo "$line" | sed -E 's/^\[(C[0-9]+) rc=([0-9]+)\].*/\1/'); rc=$(echo "$line" | sed -E 's/^\[(C[0-9]+) rc=([0-9]+)\].*/\2/')
     if [ "$rc" = "1" ]; then echo "$name $c caught"; else echo "$name $c MISSED(rc=$rc)"; fi
   done
   echo "$out" | grep -q "PATCH DOES NOT APPLY" && echo "$name PATCH-DOES-NOT-APPLY"
-done
+}
+export -f one
+ls -d seeded/*/ | xargs -P "$jobs" -I{} bash -c 'one {}'
